@@ -321,12 +321,13 @@ def rw_throw(s, R):
 
 def rw_generic(s, R, scalar_types=()):
     s = rw_casts(s, R)
+    s = R.sub('std_string', r'\bstd::string\b(?!\s*[{(])', 'vstr', s)
     s = R.sub('numeric_limits',
               r'std::numeric_limits<\s*((?:[\w]+::)*)([\w ]+?)\s*>::(min|max|lowest)\(\)',
               lambda m: '(' + LIMITS[m.group(2)][1 if m.group(3) == 'max' else 0] + ')', s)
     s = rw_throw(s, R)
     s = rw_scalar_ctor(s, R, scalar_types)
-    s = R.sub('auto', r'\bconst\s+auto\s*\*\s*(?=\w)', 'const __auto_type ', s)
+    s = R.sub('auto', r'\bconst\s+auto\s*\*\s*(?=\w)', '__auto_type ', s)   # pointer to const: the pointee type comes from the initialiser
     s = R.sub('auto', r'\bauto\s*\*\s*(?=\w)', '__auto_type ', s)
     s = R.sub('auto', r'\bconst\s+auto\s*&?\s*(?=\w)', 'const __auto_type ', s)
     s = R.sub('auto', r'\bauto\s*&{0,2}\s*(?=\w)', '__auto_type ', s)
@@ -337,6 +338,8 @@ def rw_generic(s, R, scalar_types=()):
     s = R.sub('namespace', NS, '', s)
     s = R.sub('namespace', r'(?<![\w>)\]])::(?=\w)', '', s)   # global qualifier ::write
     s = R.sub('nullptr', r'\bnullptr\b', 'NULL', s)
+    s = R.sub('distance', r'(?<![\w.>])distance\s*\(', 'VERIF_DISTANCE(', s)
+    s = R.sub('back_inserter', r'(?<![\w.>])back_inserter\s*\(([^()]*)\)', r'(&\1)', s)
     s = R.sub('functor_call', r'\b(\w+)\{\}\(', r'\1_call(', s)
     s = R.sub('std_abs', r'(?<![\w.>])abs\s*\(', 'VERIF_ABS(', s)
     s = R.sub('static_assert', r'\bstatic_assert\s*\((?:[^;]|\n)*?\)\s*;', '', s)
@@ -360,6 +363,71 @@ def rw_methodcalls(s, R, objs):
             s = s[:m.start()] + rep + s[j + 1:]
             pos = m.start() + len(cls) + 1
             R.hit('method_call')
+    return s
+
+
+def rw_strings(s, R, names):
+    """type-directed rules for std::string objects (the vstr model)"""
+    for x in names:
+        X = re.escape(x)
+        pos = 0
+        pat = re.compile(r'(?<![\w.>])' + X + r'\s*\+=\s*')
+        while True:
+            m = pat.search(s, pos)
+            if not m:
+                break
+            e = m.end()
+            j = e
+            d = 0
+            while not (s[j] == ';' and d == 0):
+                if s[j] in '"\'':
+                    j = skip_literal(s, j)
+                    continue
+                if s[j] in '([{':
+                    d += 1
+                elif s[j] in ')]}':
+                    d -= 1
+                j += 1
+            rhs = s[e:j].strip()
+            if rhs.startswith('"'):
+                rep = 'vstr_append_lit(&%s, %s)' % (x, rhs)
+                R.hit('string_append_literal')
+            else:
+                rep = 'vstr_push_char(&%s, %s)' % (x, rhs)
+                R.hit('string_push_char')
+            s = s[:m.start()] + rep + s[j:]
+            pos = m.start() + len(rep)
+        for meth, fn in (('append', 'vstr_append_range'), ('size', 'vstr_size'), ('resize', 'vstr_resize'), ('push_back', 'vstr_push_char'),
+                         ('data', 'vstr_data'), ('erase', 'vstr_erase'), ('clear', 'vstr_clear'), ('empty', 'vstr_empty'), ('reserve', 'vstr_reserve'),
+                         ('capacity', 'vstr_capacity'), ('c_str', 'vstr_data')):
+            pat = re.compile(r'(?<![\w.>])' + X + r'\s*(\.|->)\s*' + meth + r'\s*\(')
+            pos = 0
+            while True:
+                m = pat.search(s, pos)
+                if not m:
+                    break
+                i = m.end() - 1
+                j = match_close(s, i)
+                args = s[i + 1:j].strip()
+                recv = ('&' + x) if m.group(1) == '.' else x
+                rep = '%s(%s%s)' % (fn, recv, (', ' + args) if args else '')
+                s = s[:m.start()] + rep + s[j + 1:]
+                pos = m.start() + len(fn)
+                R.hit('string_' + meth)
+        # (*x)[i] / x[i]
+        pat = re.compile(r'\(\*' + X + r'\)\s*\[|(?<![\w.>])' + X + r'\s*\[')
+        pos = 0
+        while True:
+            m = pat.search(s, pos)
+            if not m:
+                break
+            i = m.end() - 1
+            j = match_close(s, i)
+            deref = m.group(0).startswith('(*')
+            rep = '(*vstr_at(%s, %s))' % (x if deref else '&' + x, s[i + 1:j])
+            s = s[:m.start()] + rep + s[j + 1:]
+            pos = m.start() + len(rep)
+            R.hit('string_index')
     return s
 
 
@@ -446,6 +514,7 @@ def parse_params(params, R, keepref=()):
     """C++ parameter list -> (C parameter list, [names that were references])"""
     out = []
     refs = []
+    refpos = []
     for p in split_top(params, angle=True):
         p = ' '.join(p.split())
         if not p:
@@ -461,12 +530,16 @@ def parse_params(params, R, keepref=()):
             if (base in SCALARS or base_nons in SCALARS) and 'const' in typ and name not in keepref:
                 out.append('%s %s' % (typ, name))       # const scalar& -> by value
                 R.hit('constref_byval')
+                refpos.append(False)
             else:
                 out.append('%s* %s' % (typ, name))
                 refs.append(name)
                 R.hit('ref_to_ptr')
+                refpos.append(True)
         else:
             out.append('%s%s %s' % (typ, mod, name))
+            refpos.append(False)
+    parse_params.last_refpos = refpos
     return out, refs
 
 
@@ -535,7 +608,7 @@ class Unit:
 
     def __init__(self, file, name, cls=None, cname=None, sig=None, nth=0, bind=None, method=None,
                  selftype=None, pre=(), post=(), ret=None, params=None, extra_members=(), refs_keep=(),
-                 maythrow=False, scalar_types=(), static=False, drop_const_self=False, block=None, objs=None, retval=None, witness=()):
+                 maythrow=False, scalar_types=(), static=False, drop_const_self=False, block=None, objs=None, retval=None, witness=(), strs=()):
         self.file = file
         self.name = name
         self.cls = cls
@@ -556,6 +629,7 @@ class Unit:
         self.block = block
         self.objs = objs or {}
         self.retval = retval
+        self.strs = list(strs)
         self.witness = list(witness)   # [(expr of type char*, length expr, K)]: first K bytes copied to a ghost array so traces show them
 
 
@@ -662,15 +736,19 @@ def extract(repo, u, R=None, src_cache=None, siblings=None):
     header = re.sub(r'template\s*<[^{;]*?>\s*(?=\w)', '', header, count=1)
     header = re.sub(r'\b(static|friend|virtual|OSMIUM_\w+)\b', '', header)
     ret = u.ret if u.ret is not None else (rw_generic(header, Rules()).strip() or 'void')
+    refpos = []
     if u.params is not None:
         cparams, refs = list(u.params), []
     else:
         cparams, refs = parse_params(f['params'], R, u.refs_keep)
+        refpos = list(parse_params.last_refpos)
         cparams = [rw_generic(p, Rules()).strip() for p in cparams]
     body = rw_assert(body, R, where)
     body = rw_generic(body, R, u.scalar_types)
     if u.objs:
         body = rw_methodcalls(body, R, u.objs)
+    if u.strs:
+        body = rw_strings(body, R, u.strs)
     if refs:
         body = rw_refparam(body, R, refs)
     if u.method:
@@ -685,7 +763,7 @@ def extract(repo, u, R=None, src_cache=None, siblings=None):
     typedefs = ''.join('typedef %s %s;\n' % (v, k) for k, v in u.bind.items() if not k.startswith('#'))
     defines = ''.join('#define %s %s\n' % (k[1:], v) for k, v in u.bind.items() if k.startswith('#'))
     return dict(unit=u, ret=ret, cparams=cparams, body=body, where=where, line=f['line'], end_line=f['end_line'],
-                typedefs=typedefs + defines, sha=raw_sha, brace_line=brace_line, hits=R.hits, refs=refs)
+                typedefs=typedefs + defines, sha=raw_sha, brace_line=brace_line, refpos=refpos, hits=R.hits, refs=refs)
 
 
 def members_struct(repo, chain, cname, typemap=None, extra='', src_cache=None):
@@ -706,3 +784,35 @@ def members_struct(repo, chain, cname, typemap=None, extra='', src_cache=None):
                 t = rw_generic(typ, Rules()).strip()
             fields.append('  %s %s%s;' % (t, name, (' ' + suffix) if suffix else ''))
     return 'struct %s {\n%s\n%s};\n' % (cname, '\n'.join(fields), extra)
+
+
+def rw_ref_args(body, R, table):
+    """calls to extracted functions whose C++ parameters are references: pass the address.
+    table: {cname: [is_reference per C++ parameter], ...}; methods have `self` prepended already."""
+    for fn, refpos in table.items():
+        if not any(refpos):
+            continue
+        pat = re.compile(r'(?<![\w.>])' + re.escape(fn) + r'\s*\(')
+        pos = 0
+        while True:
+            m = pat.search(body, pos)
+            if not m:
+                break
+            i = m.end() - 1
+            j = match_close(body, i)
+            args = split_top(body[i + 1:j])
+            off = len(args) - len(refpos)          # leading self argument of method calls
+            if off < 0:
+                pos = m.end()
+                continue
+            new = []
+            for k, a in enumerate(args):
+                if k - off >= 0 and refpos[k - off] and not a.strip().startswith('&'):
+                    new.append(' &(%s)' % a.strip())
+                    R.hit('ref_argument')
+                else:
+                    new.append(a)
+            rep = fn + '(' + ','.join(new) + ')'
+            body = body[:m.start()] + rep + body[j + 1:]
+            pos = m.start() + len(fn) + 1
+    return body
